@@ -23,12 +23,16 @@ import (
 )
 
 type c14Buf struct {
-	c   *Ctx
-	p   *Prog
-	r   *Report
-	bt  string // namedKey of Buffered
-	rt  string // namedKey of Ring
-	fns []*ssa.Function
+	c  *Ctx
+	p  *Prog
+	r  *Report
+	bt string // namedKey of Buffered
+	// own: Buffered and the named structs of the package it groups its state
+	// in (by value, by pointer or embedded); byValue[T] = structs T contains by value
+	own     map[string]bool
+	byValue map[string]map[string]bool
+	rt      string // namedKey of Ring
+	fns     []*ssa.Function
 	// helper universe: package functions that are not part of the Ring API
 	helper map[*ssa.Function]bool
 	sites  map[*ssa.Function][]ssa.CallInstruction
@@ -40,6 +44,10 @@ type c14Buf struct {
 	// unknownShape: a classifier met a store whose value has a shape it does not
 	// model (as opposed to a value that is positively wrong)
 	unknownShape string
+	// viaValue: functions that are (also) invoked through a function value;
+	// their parameters are not resolved through the call sites (a bound
+	// receiver shifts the argument list)
+	viaValue map[*ssa.Function]bool
 }
 
 func c14Buffered(c *Ctx) {
@@ -49,19 +57,56 @@ func c14Buffered(c *Ctx) {
 	ringNamed := p.Named("ring", "Ring")
 	b.bt = namedKey(named)
 	b.rt = namedKey(ringNamed)
-	st, ok := named.Underlying().(*types.Struct)
-	if !ok {
+	if _, ok := named.Underlying().(*types.Struct); !ok {
 		undecided("ring.Buffered is no longer a struct")
 	}
 	var ringFields []FieldID
-	for i := 0; i < st.NumFields(); i++ {
-		f := st.Field(i)
-		id := FieldID{b.bt, f.Name()}
-		b.fields = append(b.fields, id)
-		if pt, ok := f.Type().Underlying().(*types.Pointer); ok && namedKey(pt.Elem()) == b.rt {
-			ringFields = append(ringFields, id)
+	b.own = map[string]bool{}
+	b.byValue = map[string]map[string]bool{}
+	var walkT func(n *types.Named)
+	walkT = func(n *types.Named) {
+		key := namedKey(n)
+		if b.own[key] {
+			return
+		}
+		b.own[key] = true
+		b.byValue[key] = map[string]bool{}
+		st, ok := n.Underlying().(*types.Struct)
+		if !ok {
+			return
+		}
+		for i := 0; i < st.NumFields(); i++ {
+			f := st.Field(i)
+			id := FieldID{key, f.Name()}
+			ft := f.Type()
+			isPtr := false
+			if pt, ok := ft.Underlying().(*types.Pointer); ok {
+				ft, isPtr = pt.Elem(), true
+			}
+			if isPtr && namedKey(ft) == b.rt {
+				b.fields = append(b.fields, id)
+				ringFields = append(ringFields, id)
+				continue
+			}
+			if sub, ok := types.Unalias(ft).(*types.Named); ok && sub.Obj().Pkg() == named.Obj().Pkg() && namedKey(sub) != b.rt {
+				if _, isStruct := sub.Underlying().(*types.Struct); isStruct {
+					// state grouped in a sub-struct: its fields play the roles
+					walkT(sub.Origin())
+					if !isPtr {
+						b.byValue[key][namedKey(sub)] = true
+						for k := range b.byValue[namedKey(sub)] {
+							b.byValue[key][k] = true
+						}
+					} else {
+						b.fields = append(b.fields, id)
+					}
+					continue
+				}
+			}
+			b.fields = append(b.fields, id)
 		}
 	}
+	walkT(named.Origin())
 	if len(ringFields) != 1 {
 		undecided("ring.Buffered has %d fields of type *Ring: the head field cannot be resolved by role", len(ringFields))
 	}
@@ -82,9 +127,25 @@ func c14Buffered(c *Ctx) {
 			}
 			if s, ok := in.(*ssa.Store); ok {
 				if fa, ok := s.Addr.(*ssa.FieldAddr); ok {
-					if id := fieldIDOfAddr(fa); id.Type == b.bt {
+					if id := fieldIDOfAddr(fa); b.own[id.Type] {
 						b.stores[id] = append(b.stores[id], s)
 					}
+				}
+			}
+		})
+	}
+	// calls through function values with visible targets are call sites too
+	b.viaValue = map[*ssa.Function]bool{}
+	for _, fn := range b.fns {
+		allInstrs(fn, func(in ssa.Instruction) {
+			ci, ok := in.(ssa.CallInstruction)
+			if !ok || staticCallee(ci) != nil {
+				return
+			}
+			if ts, known := b.callees(ci); known {
+				for _, t := range ts {
+					b.sites[t] = append(b.sites[t], ci)
+					b.viaValue[t] = true
 				}
 			}
 		})
@@ -235,7 +296,7 @@ func (b *c14Buf) origins(v ssa.Value, depth int) []ssa.Value {
 			}
 		}
 		sites := b.sites[fn]
-		if idx < 0 || len(sites) == 0 || (fn.Object() != nil && fn.Object().Exported()) {
+		if idx < 0 || len(sites) == 0 || (fn.Object() != nil && fn.Object().Exported()) || b.viaValue[fn] {
 			return []ssa.Value{v}
 		}
 		var out []ssa.Value
@@ -249,6 +310,13 @@ func (b *c14Buf) origins(v ssa.Value, depth int) []ssa.Value {
 		return out
 	case *ssa.Call:
 		cal := staticCallee(x)
+		if cal == nil && depth < 4 && builtinName(x) == "" && !x.Call.IsInvoke() {
+			if _, isParam := x.Call.Value.(*ssa.Parameter); !isParam {
+				if ts, known := b.funcTargets(x.Call.Value, depth+1); known && len(ts) == 1 {
+					cal = ts[0]
+				}
+			}
+		}
 		if cal == nil || !b.helper[cal] || len(cal.Blocks) == 0 || cal.Signature.Results().Len() != 1 {
 			return []ssa.Value{v}
 		}
@@ -315,7 +383,7 @@ func (b *c14Buf) returnsField(fn *ssa.Function) (FieldID, bool) {
 		for _, u := range unspill(ret.Results[0]) {
 			for _, o := range b.origins(u, 0) {
 				id, _, isField := fieldOfValue(o)
-				if _, isAddr := o.(*ssa.FieldAddr); !isField || isAddr || id.Type != b.bt {
+				if _, isAddr := o.(*ssa.FieldAddr); !isField || isAddr || !b.own[id.Type] {
 					ok = false
 					return
 				}
@@ -451,20 +519,27 @@ func (b *c14Buf) pathCount(fn *ssa.Function, classify func(ssa.Instruction) int,
 		if _, isDefer := in.(*ssa.Defer); isDefer && !ff.Replaying {
 			return st
 		}
-		cal := staticCallee(ci)
-		if cal == nil || !b.helper[cal] {
-			return st
-		}
-		sub := b.pathCount(cal, classify, active)
+		cals, _ := b.callees(ci)
 		var out uint64
-		for d := 0; d < 4; d++ {
-			if sub&(1<<uint(d)) != 0 {
-				dd := d
-				if d == 3 {
-					dd = 99
-				}
-				out |= bump(st, dd)
+		any := false
+		for _, cal := range cals {
+			if !b.helper[cal] {
+				continue
 			}
+			any = true
+			sub := b.pathCount(cal, classify, active)
+			for d := 0; d < 4; d++ {
+				if sub&(1<<uint(d)) != 0 {
+					dd := d
+					if d == 3 {
+						dd = 99
+					}
+					out |= bump(st, dd)
+				}
+			}
+		}
+		if !any {
+			return st
 		}
 		return out
 	}}
@@ -505,19 +580,15 @@ func (b *c14Buf) closure(fn *ssa.Function) (fns []*ssa.Function, dyn int) {
 			if builtinName(ci) != "" {
 				return
 			}
-			cal := staticCallee(ci)
-			if cal == nil {
-				if !ci.Common().IsInvoke() {
-					if _, isMC := ci.Common().Value.(*ssa.MakeClosure); !isMC {
-						dyn++
-					}
-				} else {
-					dyn++
-				}
+			cals, known := b.callees(ci)
+			if !known {
+				dyn++
 				return
 			}
-			if b.helper[cal] {
-				walk(cal)
+			for _, cal := range cals {
+				if b.helper[cal] {
+					walk(cal)
+				}
 			}
 		})
 	}
@@ -845,7 +916,7 @@ func (b *c14Buf) lowerBound0(v ssa.Value, at *ssa.BasicBlock, depth int) c14LB {
 		return c14LB{lo, true, why}
 	case *ssa.UnOp:
 		if x.Op == token.MUL {
-			if id, fa, ok := fieldOfValue(x); ok && id.Type == b.bt {
+			if id, fa, ok := fieldOfValue(x); ok && b.own[id.Type] {
 				_ = fa
 				return b.fieldLB(id, depth)
 			}
@@ -973,12 +1044,16 @@ func (b *c14Buf) fieldLB(f FieldID, depth int) c14LB {
 			if !ok {
 				return
 			}
-			if _, isPtr := pt.Elem().Underlying().(*types.Pointer); isPtr || namedKey(pt.Elem()) != b.bt {
+			if _, isPtr := pt.Elem().Underlying().(*types.Pointer); isPtr {
+				return
+			}
+			// the allocated struct declares f, or contains the declaring struct by value
+			if at := namedKey(pt.Elem()); !b.own[at] || (at != f.Type && !b.byValue[at][f.Type]) {
 				return
 			}
 			stored := false
 			for _, st := range b.stores[f] {
-				if fa := st.Addr.(*ssa.FieldAddr); fa.X == ssa.Value(al) {
+				if c14RootBase(st.Addr) == ssa.Value(al) {
 					stored = true
 				}
 			}
@@ -1010,17 +1085,21 @@ func (b *c14Buf) fieldsReadBy(v ssa.Value, out map[FieldID]bool, seen map[ssa.Va
 		return
 	}
 	seen[v] = true
-	if id, _, ok := fieldOfValue(v); ok && id.Type == b.bt {
+	if id, _, ok := fieldOfValue(v); ok && b.own[id.Type] {
 		out[id] = true
 		return
 	}
 	if call, ok := v.(*ssa.Call); ok {
-		if cal := staticCallee(call); cal != nil && b.helper[cal] {
+		cals, _ := b.callees(call)
+		for _, cal := range cals {
+			if !b.helper[cal] {
+				continue
+			}
 			fns, _ := b.closure(cal)
 			for _, f := range fns {
 				allInstrs(f, func(in ssa.Instruction) {
 					if u, ok := in.(*ssa.UnOp); ok && u.Op == token.MUL {
-						if id, _, ok := fieldOfValue(u); ok && id.Type == b.bt {
+						if id, _, ok := fieldOfValue(u); ok && b.own[id.Type] {
 							out[id] = true
 						}
 					}
@@ -1152,7 +1231,11 @@ func (b *c14Buf) maintainedWith(root *ssa.Function, f FieldID, api string) bool 
 				sps = append(sps, in)
 			}
 			if ci, ok := in.(*ssa.Call); ok {
-				if cal := staticCallee(ci); cal != nil && b.helper[cal] && cal != g {
+				cals, _ := b.callees(ci)
+				for _, cal := range cals {
+					if !b.helper[cal] || cal == g {
+						continue
+					}
 					if does(cal, isAPI) {
 						lps = append(lps, in)
 					}
@@ -1225,4 +1308,86 @@ func (b *c14Buf) checkDecision(fn *ssa.Function, api string, otherFn *ssa.Functi
 		pos = p.Pos(whyPos)
 	}
 	r.Check(why == "", "C14.buffered-capacity", construct, pos, "decision depends only on the count, the live ring, immutable configuration (or on fields maintained on both growth and shrink)", why)
+}
+
+// c14RootBase: the object a (possibly nested) field address belongs to.
+func c14RootBase(v ssa.Value) ssa.Value {
+	for {
+		fa, ok := v.(*ssa.FieldAddr)
+		if !ok {
+			return v
+		}
+		v = fa.X
+	}
+}
+
+// callees: the functions a call may invoke. Besides static calls, calls
+// through a function VALUE whose targets are visible in the package are
+// resolved: a closure or method value held in a local, handed in as a
+// parameter of an unexported helper, or kept in a func-typed field of
+// Buffered (every value ever stored into that field). known=false when some
+// target cannot be determined.
+func (b *c14Buf) callees(ci ssa.CallInstruction) (fns []*ssa.Function, known bool) {
+	if cal := staticCallee(ci); cal != nil {
+		return []*ssa.Function{cal}, true
+	}
+	cc := ci.Common()
+	if cc.IsInvoke() || builtinName(ci) != "" {
+		return nil, false
+	}
+	return b.funcTargets(cc.Value, 0)
+}
+
+func (b *c14Buf) funcTargets(v ssa.Value, depth int) ([]*ssa.Function, bool) {
+	if depth > 6 {
+		return nil, false
+	}
+	var out []*ssa.Function
+	for _, o := range b.origins(v, 0) {
+		switch x := o.(type) {
+		case *ssa.Function:
+			out = append(out, origin(x))
+		case *ssa.MakeClosure:
+			f, ok := x.Fn.(*ssa.Function)
+			if !ok {
+				return nil, false
+			}
+			// a method value m.f: the synthetic bound wrapper stands for the method
+			if f.Synthetic != "" && len(f.Blocks) > 0 {
+				var inner *ssa.Function
+				allInstrs(f, func(in ssa.Instruction) {
+					if c, ok := in.(*ssa.Call); ok {
+						if cal := staticCallee(c); cal != nil {
+							inner = cal
+						}
+					}
+				})
+				if inner == nil {
+					return nil, false
+				}
+				out = append(out, inner)
+				continue
+			}
+			out = append(out, origin(f))
+		case *ssa.UnOp:
+			// a func-typed field of Buffered: whatever is stored into it anywhere
+			id, _, ok := fieldOfValue(x)
+			if !ok || !b.own[id.Type] || len(b.stores[id]) == 0 {
+				return nil, false
+			}
+			if _, isSig := x.Type().Underlying().(*types.Signature); !isSig {
+				return nil, false
+			}
+			for _, st := range b.stores[id] {
+				ts, ok := b.funcTargets(st.Val, depth+1)
+				if !ok {
+					return nil, false
+				}
+				out = append(out, ts...)
+			}
+		default:
+			return nil, false
+		}
+	}
+	return out, len(out) > 0
 }
